@@ -162,6 +162,7 @@ pub fn property() -> Property {
         rule: "path-hash / shader-crc: ASCII strings (all 128 code points, both cases, length 0..4096) generated by proptest and compared with a bit-at-a-time CRC; letter-case flips must not change the path hash. sha1: files of every length 0..300 (0..1100 thorough) enumerated, plus random batches with lengths forced onto every padding boundary (55/56/63/64/119/120 mod 64) up to 256 KiB (4 MiB thorough), hashed through FileInfo::new and compared with a straight FIPS 180-4 implementation. Non-trivial: CRC input of length >= 2 containing a letter; SHA-1 input of length >= 56 (needs length padding to spill into a second block). Distinct by content hash.",
         assumptions: &["own CRC and SHA-1 validated against published check values at start-up", "Unicode lower-casing equals ASCII lower-casing on the ASCII inputs generated"],
         pre: None,
+        post: None,
         parts: vec![
             Box::new(Part { name: "path-hash", driver: Driver::Gen(str_strategy, 20_000, 400_000), prop: prop_path_hash, exhaustive: false }),
             Box::new(Part { name: "shader-crc", driver: Driver::Gen(str_strategy, 10_000, 200_000), prop: prop_shader_crc, exhaustive: false }),
